@@ -28,7 +28,11 @@ type PrioSc struct {
 	FbCap    int        `json:"fb_cap"`  // v1 plain: user-owned feedback channel
 	Ctl      []PAction  `json:"controller"`
 	Fault    *PFault    `json:"fault,omitempty"`
-	Horizon  int64      `json:"horizon"`
+	// Dispatch (plain engines): one reader takes every item off the output at once and
+	// an actor per item releases it later, so releases come in any order relative to
+	// receipt (Handlers[k mod len] is the behaviour for the k-th item).
+	Dispatch bool  `json:"dispatch,omitempty"`
+	Horizon  int64 `json:"horizon"`
 }
 
 // PInput is one input channel and its producer.
@@ -218,6 +222,7 @@ func corrupt(priorities []uint, distribution map[uint]uint, delta int) bool {
 
 var prioSets = [][]uint{
 	{1}, {5}, {2, 1}, {3, 1}, {100, 1}, {3, 2, 1}, {70, 20, 10}, {4, 3, 2, 1}, {1000, 999, 7}, {10, 9}, {5, 5000},
+	{1 << 40, 1 << 20, 3}, {7, 6, 5, 4, 3}, {2, 3}, {9, 1, 5},
 }
 
 // acceptable asks the real v2 constructor (in a throw-away simulated run).
@@ -290,12 +295,15 @@ func genPrio(engine, prop string, r *simrt.SplitMix) *PrioSc {
 		sc.Class = "dynamic"
 	case "C19", "C20":
 		if v1 {
-			sc.Class = pick(r, "normal", "stop", "fault", "dynamic")
-			if engine == "simple1" && sc.Class == "dynamic" {
+			sc.Class = pick(r, "normal", "stop", "stop", "fault", "dynamic", "withhold", "saturate")
+			if engine == "simple1" && (sc.Class == "dynamic" || sc.Class == "saturate") {
 				sc.Class = "normal"
 			}
 		} else {
-			sc.Class = pick(r, "normal", "normal", "fault")
+			sc.Class = pick(r, "normal", "normal", "fault", "withhold", "saturate")
+			if engine == "simple2" && sc.Class == "saturate" {
+				sc.Class = "normal"
+			}
 		}
 	case "C01":
 		if engine == "prio1" {
@@ -622,6 +630,15 @@ func genPrio(engine, prop string, r *simrt.SplitMix) *PrioSc {
 
 		ns, steps := wait()
 		sc.Ctl = append(sc.Ctl, PAction{WaitNs: ns, WaitSteps: steps, Kind: "graceful"})
+	}
+
+	if sc.plain() && (sc.Class == "normal" || sc.Class == "fault" || sc.Class == "dynamic" || sc.Class == "stop") && r.Intn(4) == 0 {
+		sc.Dispatch = true
+	}
+
+	// stop scenarios: a second, concurrent Stop / a GracefulStop after Stop
+	if sc.Class == "stop" && r.Intn(3) == 0 {
+		sc.Ctl = append(sc.Ctl, PAction{WaitNs: int64(r.Intn(2)), Kind: pick(r, "stop2", "stop2", "graceful")})
 	}
 
 	sc.Horizon = prioHorizon(sc)
@@ -982,7 +999,61 @@ func buildPrio(sc *PrioSc) (simrt.Config, func()) {
 		// handlers of the plain disciplines
 		resume := make([]chan struct{}, len(sc.Handlers))
 
-		if sc.plain() {
+		if sc.plain() && sc.Dispatch {
+			for hi := range sc.Handlers {
+				resume[hi] = make(chan struct{}, 4096)
+			}
+
+			simrt.GoEnv("reader", func() {
+				for n := 0; ; n++ {
+					var it pitem
+
+					if outV2 != nil {
+						p, ok := simrt.Recv2("env:handler", outV2)
+						if !ok {
+							simrt.Note("out-closed", 0, 0)
+							return
+						}
+
+						it = pitem{p.Item, p.Priority}
+					} else {
+						p, ok, got := simrt.RecvOr("env:handler", (<-chan prio1.Prioritized[int])(outV1), done)
+						if !got || !ok {
+							return
+						}
+
+						it = pitem{p.Item, p.Priority}
+					}
+
+					simrt.Note("got", int64(it.item), int64(it.prio))
+
+					n, it := n, it
+					hi := n % len(sc.Handlers)
+					hd := sc.Handlers[hi]
+
+					simrt.GoEnv(fmt.Sprintf("releaser[%d]", n), func() {
+						if hd.Manual && simrt.GetVar(varAuto) == 0 {
+							if _, _, got := simrt.RecvOr("env:handler", resume[hi], done); !got {
+								return
+							}
+						} else if len(hd.Delays) > 0 {
+							if !simrt.SleepOr("env:handler", ns(hd.Delays[(n/len(sc.Handlers))%len(hd.Delays)]), done) {
+								return
+							}
+						}
+
+						simrt.Note("release", int64(it.item), int64(it.prio))
+
+						if !h.release(it.prio, done) {
+							simrt.Note("release-abandoned", int64(it.item), int64(it.prio))
+							return
+						}
+
+						simrt.Note("released", int64(it.item), int64(it.prio))
+					})
+				}
+			})
+		} else if sc.plain() {
 			for hi := range sc.Handlers {
 				hi := hi
 				hd := sc.Handlers[hi]
@@ -1090,6 +1161,15 @@ func buildPrio(sc *PrioSc) (simrt.Config, func()) {
 						simrt.Note("stop-call", 0, 0)
 						h.stop()
 						simrt.Note("stop-returned", 0, 0)
+					}
+				case "stop2":
+					// a second caller of Stop, concurrent with whatever the first one does
+					if h.stop != nil {
+						simrt.GoEnv("stop2", func() {
+							simrt.Note("stop2-call", 0, 0)
+							h.stop()
+							simrt.Note("stop2-returned", 0, 0)
+						})
 					}
 				case "cancel":
 					simrt.Note("cancel", 0, 0)
